@@ -27,6 +27,12 @@ def shadowing_ruleset(rng):
         if len(rs.scs) > 1 and rng.random() < 0.4:
             r = dict(r); r['scs'] = sorted(rng.sample(range(len(rs.scs)), rng.randrange(1, len(rs.scs) + 1))); r['all'] = False
         extra.append(r)
+    if rng.random() < 0.3:
+        # a fixed-length head with a trailing part that only *looks* variable, after rules of variable length: not a
+        # variable trailing context rule, so the warnings have to be exact
+        a, b = rng.sample([97, 98, 99, 48, 65], 2)
+        extra.append({'scs': [], 'all': False, 'bol': False, 'head': ('str', [rng.choice([97, 98]), rng.choice([97, 99])]),
+                      'trail': ('alt', ('chr', a), ('chr', b)), 'dollar': False})
     for r in extra:
         rs.rules.insert(rng.randrange(len(rs.rules) + 1), r)
     if rng.random() < 0.25:
@@ -72,6 +78,10 @@ def _job(job):
         if 'default rule can be matched' in line:
             dflt_warned = True
     uses_reject = reject or ('yy_acclist' in out1.decode('latin1'))
+    want_reject = reject or bool(rs.expected_var_rules())
+    if uses_reject and not want_reject:
+        res['problems'].append('no rule has a variable head *and* a variable trailing part and REJECT is not used, yet flex generates the '
+                               'REJECT machinery (yy_acclist): in that mode it does not report unmatchable rules or a reachable default rule')
     # model
     cf = lf + '.case'
     open(cf, 'w').write('\n'.join(rs.case_lines(())) + '\n')
